@@ -3,7 +3,7 @@ CONSTANTS
   W = 2
   NoVal = 0
   KeySet = {"a", "b"}
-  Vals = {1, 2}
+  Vals = {1}
   MaxH = 4
   HistFirst = TRUE
   OldLast = TRUE
